@@ -23,7 +23,7 @@ EXPLANATION = (
     "C07.7 argument delivery: ArgsOs::next yields argv[ind] under ind < num_args and the null tests only (never depending on the argument's bytes), the slot is arg_v + ind and ind advances by one; env values are split at the first '='. "
     "C07.5 also: every AuxValues field holds a whole word and the id getters convert to at least 32 bits; C07.6 also: every call on the pre-relocation path goes to an #[inline(always)] function or an intrinsic (anything else is a call through the unrelocated GOT in an unoptimised static-PIE); C07.7 also: whichever method moves the argument cursor moves it relative to its position. "
     "C07.5 also: an aux getter consults nothing but its aux field. "
-    "NOT decided: the delivered values as observed in the three link modes (linker, loader, code generation), ELF/vDSO parsing against real images, numerical agreement of the clocks.")
+    "C07.4 also: strlen, which measures every argument and environment string, answers the index of the first byte compared equal to NUL, counting from 0 by 1 (no bound after which it gives up). NOT decided: the delivered values as observed in the three link modes (linker, loader, code generation), ELF/vDSO parsing against real images, numerical agreement of the clocks.")
 ASSUMPTIONS = ["Linux process-entry stack layout (argc, argv[], NULL, envp[], NULL, auxv[])", "ELF64 Rel/Rela entry layout from linux_rust_bindings"]
 
 ENV_STATIC = "tiny_std::env::ENV"
